@@ -675,6 +675,7 @@ pub fn modules(args: &[String]) {
   let n: usize = arg_or(args, "--gen", "0").parse().unwrap();
   let mut gen_samples = vec![];
   if n > 0 {
+    crate::syntax_gen::AVOID_ASSOC_REGION.with(|a| a.set(flag(args, "--avoid-assoc-region")));
     let d = srcdir.clone().expect("--srcdir is required with --gen");
     for i in 0..n {
       let mut rng = Rng::new(seed.wrapping_mul(1_000_003).wrapping_add(i as u64));
@@ -929,7 +930,7 @@ pub fn one(args: &[String]) {
   let mut outs = vec![];
   for &width in WIDTHS.iter() {
     let t = round_trip(&p, width);
-    outs.push(json!({"width": width, "output": t.output, "errors": t.errors, "same_tree": t.reparsed == orig}));
+    outs.push(json!({"width": t.width, "output": t.output, "errors": t.errors, "same_tree": t.reparsed == orig}));
   }
   let show_tree = flag(args, "--tree");
   println!(
